@@ -350,7 +350,7 @@ class Explorer(object):
                     return None
                 raise Raised(Abs('IndexError'), e)
             if isinstance(base, dict):
-                if idx in base:
+                if idx in base or hasattr(base, 'default_factory'):
                     return base[idx]
                 raise Raised(Abs('KeyError'), e)
             raise Undecided('subscript of {!r}'.format(base), e)
@@ -509,6 +509,14 @@ class Explorer(object):
                 return v
         if isinstance(e.func, ast.Attribute):
             m = e.func.attr
+            # an attribute that holds a bound method (`self.polymorphic_get_key = self.get_single_key`)
+            if isinstance(recv, Abs) and isinstance(self.run.state.get((recv.uid, m)), tuple) and len(self.run.state[(recv.uid, m)]) == 3 and self.run.state[(recv.uid, m)][0] == 'method' and self.cls is not None:
+                _, obj_, name_ = self.run.state[(recv.uid, m)]
+                fd_ = self.port.func(self.modname, '{}.{}'.format(self.cls, name_), required=False)
+                if fd_ is not None:
+                    return self.call_fd(fd_, [obj_] + args if fd_.args.args and fd_.args.args[0].arg in ('self', 'this') else args, kwargs)
+            if recv == ('global', 'Math') and m in ('max', 'min') and args and all(isinstance(a, (int, float)) and not isinstance(a, bool) for a in args):
+                return max(args) if m == 'max' else min(args)
             # a method of the class under analysis
             if isinstance(recv, Abs) and recv.kind == 'Self' and self.follow and self.cls is not None:
                 fd = self.port.func(self.modname, '{}.{}'.format(self.cls, m), required=False)
@@ -666,6 +674,11 @@ class Explorer(object):
                 return recv.get(args[0], args[1] if len(args) == 2 else None)
             if m == 'setdefault' and len(args) == 2:
                 return recv.setdefault(args[0], args[1])
+            if m == 'set' and len(args) == 2:
+                recv[args[0]] = args[1]
+                return recv
+            if m == 'has' and len(args) == 1:
+                return args[0] in recv
         raise Undecided('method {} of {!r} is outside the abstract interpreter'.format(m, recv), node)
 
 
